@@ -130,39 +130,28 @@ fn main() {
                 b.update([1u8]);
                 b.update([1u8, 1]); // both key objects wiped on drop
             }
-            let xi = h("xi", p.id, 0, 0);
-            let (_, mut skc) = refmodel::keygen_internal(&p, &xi);
-            let pat = h("t0pat", p.id, 0, 0);
-            let t0_bit = p.sk_t0_off() * 8;
-            for f in 0..(p.k * 256) {
-                let bit = (pat[(f / 8) % 32] >> (f % 8)) & 1;
-                for bi in 0..13 {
-                    let pos = t0_bit + f * 13 + bi;
-                    if bit == 1 {
-                        skc[pos / 8] |= 1 << (pos % 8);
-                    } else {
-                        skc[pos / 8] &= !(1 << (pos % 8));
-                    }
-                }
-            }
-            let crafted: Vec<Vec<u8>> = (0..cases.min(48))
-                .into_par_iter()
-                .map(|j| {
-                    let msg = h("cm", p.id, j, 0);
-                    refmodel::sign(&p, &skc, &msg[..8], &[], refmodel::Mode::Pure, &h("crnd", p.id, j, 0), 1_000_000).expect("reference sign (crafted key)").0
-                })
-                .collect();
-            for c in &crafted {
-                b.update(c);
-            }
             let outb: [u8; 32] = b.finalize().into();
             println!("set={} behave={}", p.id, hex::encode(outb));
             // ---- rare-event digest (same stream as featprobe) ----
             let mut r = Sha256::new();
+            let mut crafted_sk: Option<Vec<u8>> = None;
             let lines: Vec<String> = args.get(4).map(|f| std::fs::read_to_string(f).expect("rare-event file").lines().map(str::to_string).collect()).unwrap_or_default();
             for line in &lines {
                 let f: Vec<&str> = line.split(' ').collect();
                 if f.len() < 3 || f[1].parse::<u32>().ok() != Some(p.id) {
+                    continue;
+                }
+                if f[0] == "XK" {
+                    crafted_sk = Some(hex::decode(f[2]).expect("sk"));
+                    continue;
+                }
+                if f[0] == "X" {
+                    // the library's loop runs floor(65535 / L) iterations at most, then reports an error
+                    let cap = (65_535 / p.l) as u32;
+                    match refmodel::sign(&p, crafted_sk.as_ref().expect("XK line first"), &hex::decode(f[2]).expect("msg"), &[], refmodel::Mode::Pure, &hex::decode(f[3]).expect("rnd"), cap) {
+                        Ok((sig, _)) => r.update(&sig),
+                        Err(_) => r.update([0xEEu8]),
+                    }
                     continue;
                 }
                 if f[0] == "V" {
@@ -352,6 +341,23 @@ fn main() {
                 }
                 for s in sigs_out {
                     println!("V {} {} {} {} {} {}", p.id, spec.mode % 4, hex::encode(&t.pk), hex::encode(&t.m), hex::encode(&t.ctx), hex::encode(&s));
+                }
+            }
+            // a crafted private key (honest s1 / s2, every t0 coefficient at one of the two range ends) and messages on
+            // which the reference signer needs at most 300 iterations with it (so that nobody waits for an exhausted loop)
+            let skc = fips204_verif::gen::build_sk(&p, &fips204_verif::gen::SkSpec::Fields { rho: Seed32::Uniform(seed), key: Seed32::Zero, tr_seed: seed, s1: fips204_verif::gen::Pattern::Random(seed), s2: fips204_verif::gen::Pattern::Random(seed ^ 1), t0: fips204_verif::gen::Pattern::RandomExtreme(seed), consistent: false }).sk;
+            println!("XK {} {}", p.id, hex::encode(&skc));
+            let mut found = 0;
+            for j in 0..4000u64 {
+                let m = fips204_verif::gen::prg_bytes(seed ^ j, "featvec-msg", 8);
+                let rnd = fips204_verif::gen::prg_bytes(seed ^ j, "featvec-rnd", 32);
+                if let Ok((_, d)) = refmodel::sign(&p, &skc, &m, &[], refmodel::Mode::Pure, &rnd, 300) {
+                    println!("X {} {} {}", p.id, hex::encode(&m), hex::encode(&rnd));
+                    found += 1;
+                    let _ = d;
+                    if found == 24 {
+                        break;
+                    }
                 }
             }
         }
